@@ -129,6 +129,8 @@ func VerifH_C15_Threshold() {
 	vThresholdCase(0, 3, 2, []uint64{1, 2, 3}, "N3-t2-small-points")
 	vThresholdCase(0, 3, 3, []uint64{5, 1 << 32, 3}, "N3-t3-mixed-points")
 	vThresholdCase(2, 3, 2, []uint64{98, 194, 1<<63 + 5}, "N3-t2-points-above-the-moduli")
+	// points above every modulus of Q and P (also of the realistic primes of the native run), with auxiliary modulus
+	vThresholdCase(0, 3, 2, []uint64{1<<62 + 99, 5, 1<<63 + 5}, "N3-t2-points-above-the-moduli-with-P")
 	if vTier() > 0 {
 		vThresholdCase(1, 4, 3, []uint64{1, 2, 3, 4}, "N4-t3")
 		vThresholdCase(0, 4, 2, []uint64{7, 11, 13, 1<<64 - 1}, "N4-t2")
